@@ -34,6 +34,57 @@ CHECKS = {
 }
 
 
+def optimised_pass(pid, a):
+    """Second pass of the same check in an interpreter started with -O (assert statements and `if __debug__` blocks stripped): the
+    properties do not depend on interpreter flags, so every execution of the quick-tier space is repeated there against the same
+    oracles.  Its coverage is appended to the evidence of the main pass; a violation found only there is reported like any other
+    (the replay file carries python_optimize=true and is replayed under -O)."""
+    import subprocess
+
+    edir = os.environ.get("VERIF_EVIDENCE_DIR") or os.path.join(HERE, "evidence")
+    import shutil
+    import tempfile
+
+    odir = tempfile.mkdtemp(prefix=f"verif-{pid}-optimised-")  # scratch, removed below
+    cmd = [sys.executable, "-O", "-B", os.path.abspath(__file__), pid, "--tier", "quick"]
+    if a.only:
+        cmd += ["--only", a.only]
+    child_env = dict(os.environ, VERIF_PYOPT="1", VERIF_TIER="quick", VERIF_EVIDENCE_DIR=odir, VERIF_REPLAY_TAG="O")
+    print(f"[{pid}] second pass under python -O (quick-tier bounds)", flush=True)
+    p = subprocess.Popen(cmd, stdout=subprocess.PIPE, stderr=subprocess.STDOUT, text=True, env=child_env, cwd=HERE)
+    for line in p.stdout:
+        line = line.rstrip("\n")
+        if line.startswith(("VIOLATION ", "KNOWN-FINDING:", "INTERNAL-ERROR")):
+            print(line, flush=True)
+        else:
+            print("  [-O] " + line, flush=True)
+    rc = p.wait()
+    main_path = os.path.join(edir, f"{pid}.json")
+    try:
+        with open(os.path.join(odir, f"{pid}.json")) as f:
+            od = json.load(f)
+        with open(main_path) as f:
+            md = json.load(f)
+        oc = od["coverage"]
+        md["coverage"]["optimised_interpreter_pass"] = {
+            "interpreter_flags": "-O", "tier_bounds": "quick", "exit_code": rc,
+            "states": oc["states"], "transitions": oc["transitions"], "traces_validated_against_impl": oc["traces_validated_against_impl"],
+            "evaluations": oc["evaluations"], "distinct_nontrivial": oc["distinct_nontrivial"], "exhaustive": oc["exhaustive"],
+            "new_violation_signatures": oc["new_violation_signatures"], "known_findings_seen": oc["known_findings_seen"],
+            "internal_errors": oc["internal_errors"], "wall_s": od["wall_s"],
+        }
+        md["violations"] = md.get("violations", 0) + od.get("violations", 0)
+        md["wall_s"] = round(md.get("wall_s", 0) + od.get("wall_s", 0), 3)
+        with open(main_path, "w") as f:
+            json.dump(md, f, indent=1)
+    except Exception as e:  # noqa: BLE001
+        print(f"INTERNAL-ERROR: optimised-interpreter pass left no evidence ({e!r})")
+        rc = 2
+    finally:
+        shutil.rmtree(odir, ignore_errors=True)
+    return rc
+
+
 def main():
     ap = argparse.ArgumentParser()
     ap.add_argument("pid")
@@ -57,13 +108,19 @@ def main():
     if a.replay:
         with open(a.replay) as f:
             doc = json.load(f)
+        if doc.get("python_optimize") and not sys.flags.optimize:
+            # the counterexample was found in the optimised-interpreter pass: replay it there
+            os.execve(sys.executable, [sys.executable, "-O", "-B", os.path.abspath(__file__)] + sys.argv[1:], dict(os.environ, VERIF_PYOPT="1"))
         if not hasattr(mod, "replay"):
             print("this check has no replay function")
             return 2
         return int(mod.replay(doc) or 0)
     only = set(a.only.split(",")) if a.only else None
     try:
-        return int(mod.run(only=only))
+        rc = int(mod.run(only=only))
+        if rc == 0 and not sys.flags.optimize and not os.environ.get("VERIF_SKIP_OPT_PASS"):
+            rc = optimised_pass(pid, a)
+        return rc
     except Exception as e:
         traceback.print_exc()
         tb = traceback.extract_tb(e.__traceback__)
@@ -77,9 +134,9 @@ def main():
             exc_sig = (lambda _e: getattr(_e, "sig", "")) if worker_in_lib else _exc_sig
             rdir = os.environ.get("VERIF_REPLAY_DIR") or os.path.join(HERE, "replays")
             os.makedirs(rdir, exist_ok=True)
-            path = os.path.join(rdir, f"{pid}-crash.json")
+            path = os.path.join(rdir, f"{pid}-{os.environ.get('VERIF_REPLAY_TAG', '')}crash.json")
             with open(path, "w") as f:
-                json.dump({"property": pid, "check": "harness", "sig": "library_raised_while_preparing_cases:" + exc_sig(e),
+                json.dump({"property": pid, "check": "harness", "python_optimize": bool(sys.flags.optimize), "sig": "library_raised_while_preparing_cases:" + exc_sig(e),
                            "what": "the library raised on an in-domain input outside any guarded case", "traceback": traceback.format_exc()[-4000:]}, f, indent=1)
             print(f"  violation sig=harness:library_raised_while_preparing_cases:{exc_sig(e)} count=1 {e!r}")
             print(f"VIOLATION property={pid} replay={path}")
